@@ -15,7 +15,7 @@
    follow their channel format by the C11 invariant (Heap/Labels.v covers reassignIds).
    Partial (suffix _partial): which numbers pack, stream, channel, track formats and track UIDs receive, and
    idempotence, are decided by the differential run only. *)
-From Adm Require Import Heap.Exec Heap.More Heap.Frame Heap.Reassign Heap.ReassignFull Heap.WF Heap.WF Heap.Uniq Heap.UniqReassign Heap.ReassignU Heap.BlockIds Heap.Labels.
+From Adm Require Import Heap.Exec Heap.More Heap.Frame Heap.Reassign Heap.ReassignFull Heap.WF Heap.WF Heap.Uniq Heap.UniqReassign Heap.ReassignU Heap.BlockIds Heap.Labels Heap.Sync Heap.Local Heap.ReassignLocal.
 Local Open Scope N_scope.
 
 Theorem C14_set_id_changes_ids_only : forall h i s s' r e, get_elem s h = Some e ->
@@ -101,3 +101,13 @@ Print Assumptions C14_reassign_keeps_the_id_invariant.
 Theorem C14_blocks_follow_after_reassign : forall d s s' u, reassign_ids d s = (s', inl u) -> Lab s -> Lab s'.
 Proof. exact (fun d s s' u H L => lpres_reassign_ids d s s' u H L). Qed.
 Print Assumptions C14_blocks_follow_after_reassign.
+
+(* "without disturbing the document" also means: without disturbing any other document.  From a well-formed, synchronised
+   state, reassignIds of d - whatever its outcome - leaves every element of every other document dB, and dB itself, exactly
+   as they were (Heap/ReassignLocal.v; the writes go to members of d and to the channel / track formats they reference,
+   which well-formedness places in d) *)
+Theorem C14_other_documents_untouched : forall d dB s s' (r : unit + exn), WF s -> Sync s -> d <> dB ->
+  reassign_ids d s = (s', r) ->
+  (forall y, parent s y = Some dB -> get_elem s' y = get_elem s y) /\ get_doc s' dB = get_doc s dB.
+Proof. exact reassign_ids_other_docs. Qed.
+Print Assumptions C14_other_documents_untouched.
